@@ -201,9 +201,10 @@ def allocfail(check, tier, seed):
 
 # ------------------------------------------------------------------------------------------- C17
 
-def c17(check, pid, tier, seed):
+def c17_tape(check, pid, tier, seed):
+    """The serde tape engine. Returns (coverage dict, reported infos, evaluations)."""
     t0 = time.time()
-    binp = check.build("A")
+    binp = check._BIN.get("A") or check.build("A")
     check._BIN["A"] = binp
     total = 48000 if tier == "quick" else 1600000
     nw = check.NCPU
@@ -260,33 +261,25 @@ def c17(check, pid, tier, seed):
         reported.append(info)
     tot = check.merge_stats(stats)
     cov = {
-        "evaluations": int(tot.get("runs", 0)),
-        "distinct_nontrivial": len(hashes),
-        "rule": "values are drawn from (u32, String, (u8,String), Vec<Piece>, Option<Piece>, Nested with hand-written impls); one evaluation = one (value, direction, fault point k) with k = 0..calls+1 "
-                "enumerated completely per value; distinct_nontrivial = distinct serializer call sequences (tapes) among the generated values, unioned over workers",
-        "samples": tot.get("samples", [])[:4] or ["none"],
-        "fault_kinds_fired": {"serializer_failure_at_kth_call": int(tot.get("ser_faults_fired", 0)), "deserializer_failure_at_kth_call": int(tot.get("de_faults_fired", 0)),
+        "tape_evaluations": int(tot.get("runs", 0)),
+        "tape_distinct_call_sequences": len(hashes),
+        "tape_rule": "values are drawn from (u32, String, (u8,String), Vec<Piece>, Option<Piece>, Nested with hand-written impls, [Piece;9], (Nested,String,u64)); one evaluation = one (value, direction, fault point k) with k = 0..calls+1 "
+                     "enumerated completely per value; distinct = distinct serializer call sequences (tapes) among the generated values, unioned over workers",
+        "tape_samples": tot.get("samples", [])[:4] or ["none"],
+        "tape_fault_kinds_fired": {"serializer_failure_at_kth_call": int(tot.get("ser_faults_fired", 0)), "deserializer_failure_at_kth_call": int(tot.get("de_faults_fired", 0)),
                               "serializer_fault_points": int(tot.get("ser_fault_points", 0)), "deserializer_fault_points": int(tot.get("de_fault_points", 0))},
-        "values": int(tot.get("values", 0)),
+        "tape_values": int(tot.get("values", 0)),
         "fresh_owner_blocks_checked_against_ledger": int(tot.get("fresh_blocks_checked", 0)),
         "serde_value_deserializer_cases": int(tot.get("value_deserializer_cases", 0)),
-        "values_by_type": tot.get("by_type"),
-        "runs_per_hour": int(tot.get("runs", 0) / wall * 3600) if wall > 0 else 0,
-        "simulated_time": {"unit": "serializer/deserializer callbacks", "steps": int(tot.get("ser_fault_points", 0) + tot.get("de_fault_points", 0))},
-        "components": {"real_code": ["triomphe's Serialize/Deserialize impls for Arc and UniqueArc", "serde (traits, std impls, de::value deserializers)"],
+        "tape_values_by_type": tot.get("by_type"),
+        "tape_components": {"real_code": ["triomphe's Serialize/Deserialize impls for Arc and UniqueArc", "serde (traits, std impls, de::value deserializers)"],
                        "stub_or_shim": ["Serializer and Deserializer (recording/replaying tape with failure injection)", "the global allocator (ledger)", "payload pieces (identity-tracked)"]},
         "configurations": "A only: serde is absent from the no-default-features build (compiled out, not counted as a pass)",
-        "known_findings_matched": known_hit,
+        "tape_known_findings_matched": known_hit,
+        "tape_wall_s": round(wall, 3),
     }
-    ev = {"property_id": pid, "tier": tier, "seed": int(seed), "level": "fault_enumeration", "coverage": cov,
-          "assumptions": ["'every serializer' is sampled by one recording serializer with failure at every call position, and serde's in-memory value deserializers as a second family"],
-          "wall_s": round(wall, 3), "violations": len(reported)}
-    with open(os.path.join(check.EVID, f"{pid}.json"), "w") as f:
-        json.dump(ev, f, indent=1)
     shutil.rmtree(tmp, ignore_errors=True)
     for info in reported:
-        check.log(f"violation of {pid}: {info['cls']}: {info['detail']}")
-        print(f"VIOLATION property={pid} replay={os.path.relpath(info['replay'], check.HERE)}", flush=True)
-    if not reported:
-        check.log(f"{pid} {tier}: {int(tot.get('runs', 0))} evaluations over {int(tot.get('values', 0))} values, no violation ({wall:.1f}s)")
-    return 1 if reported else 0
+        info["props"] = {"C17"}
+    return cov, reported, int(tot.get("runs", 0)), len(hashes)
+
